@@ -369,8 +369,9 @@ func fnType(f *Fn) reflect.Type {
 func decodeArg(p Param, v reflect.Value) Prov {
 	if p.Decl != "" {
 		pr := Prov{Kind: "obj"}
-		for i, q := range declIns[p.Decl].Fields {
-			pr.Fields = append(pr.Fields, decodeArg(q, v.FieldByName(fmt.Sprintf("F%d", i))))
+		d := declIns[p.Decl]
+		for i, q := range d.Fields {
+			pr.Fields = append(pr.Fields, decodeArg(q, v.FieldByName(d.fieldName(i))))
 		}
 		if !unexportedZero(v) {
 			return foreignTree(p) // dig wrote to an unexported field
